@@ -818,6 +818,29 @@ def check_caller_dicts(task):
                 if norm(d) != norm(d0):
                     viols.append((f"caller-dict-changed:{fname}:{dname}", [fam, leaf, fname], f"{d0!r} -> {d!r}"))
                 hard_reset()
+            # the caller goes on using the dictionary AFTER handing it over and before the object's style is first looked at:
+            # the object keeps the values it was given
+            for fname in ("ctor_style", "ctor_style+kw", "copy_style"):
+                n += 1
+                d = make()
+                try:
+                    o = factory(style=d) if fname == "ctor_style" else factory(style=d, style_opacity=0.5) if fname == "ctor_style+kw" else factory().copy(style=d)
+                    want = getp(factory(style=copy.deepcopy(d)).style, leaf) if fname != "ctor_style+kw" else getp(factory(style=copy.deepcopy(d), style_opacity=0.5).style, leaf)
+                except Exception:
+                    hard_reset()
+                    continue
+                def poison(x):
+                    for k in list(x):
+                        if isinstance(x[k], dict):
+                            poison(x[k])
+                        else:
+                            x[k] = copy.deepcopy(_b)
+                poison(d)
+                d["label"] = "edited-later"
+                got = getp(o.style, leaf)
+                if norm(got) != norm(want) or o.style.label == "edited-later":
+                    viols.append((f"caller-dict-later-edit-leaks:{fname}:{dname}", [fam, leaf, fname], f"style.{leaf}={got!r} instead of {want!r}, label={o.style.label!r}"))
+                hard_reset()
     return {"transitions": n, "histories": n, "viols": viols}
 
 
